@@ -145,6 +145,11 @@ def jobs(tier, seed):
     J += servertext_jobs(tier)
     J += dup_jobs(tier)
     J += servers_update_jobs(tier)
+    J.append(dict(name="c16_sockfuncs_install", harness="sockfuncs_install.c", real=["src/lib/ares_set_socket_functions.c", "src/lib/str/ares_str.c", "src/lib/ares_library_init.c"],
+                  support=["vp_rt.c", "valloc.c", "memloops.c", "lock_ghost.c"], unwind=8, witnesses=["end", "installed", "refused"],
+                  kf_group="c16_sockfuncs_install",
+                  bound="ONE ares_set_socket_functions_ex with a version-1 table of ten distinct functions, any flags, complete or with "
+                        "one of the six mandatory members missing"))
     if tier == "quick":
         for job in J:   # measured unloaded: every quick job <= 60 s; the machine is shared, leave head room
             job.setdefault("timeout", 480)
